@@ -62,6 +62,7 @@ func init() {
 		c.floor("not-found-translation", 12)
 		c.needFixture("not-found-translation")
 		c15Fixture(c)
+		c15Iterators(c)
 
 		// helper-contract
 		ci := p.caps()
@@ -227,4 +228,62 @@ func c15Fixture(c *Ctx) {
 		}
 	}
 	c.check(ok, "not-found-translation", "zzVerifFixture snapshot.Has", p.Pos(fnPos(f)), "", "fixture: no translation")
+}
+
+// c15Iterators: (unpositioned-first) the Pebble-backed iterators forward Next/Prev to the native iterator only once they
+// have been positioned; before that both mean First() — the documented contract the in-memory backend implements (native
+// Pebble treats Prev on a fresh iterator as "go to last"). (batch-records-unconditionally) a batch records Put/Delete
+// without looking at the current contents: what a write means is decided when the batch commits, as in Pebble.
+func c15Iterators(c *Ctx) {
+	p := c.P
+	n := 0
+	for _, pk := range []string{"db/pebble", "db/pebblev2"} {
+		for _, m := range []string{"Next", "Prev"} {
+			f := p.Func(pk, "iterator", m)
+			if f == nil {
+				c.und("unpositioned-first", pk+".iterator."+m, "", "anchor not found")
+				continue
+			}
+			n++
+			var native *Site
+			for _, s := range sitesOf(f) {
+				s := s
+				if (s.Callee != nil && s.Callee.Name() == m || s.Method != nil && s.Method.Name() == m) && strings.Contains(term(s.Args()[0]), ".iter") {
+					native = &s
+				}
+			}
+			if native == nil {
+				c.viol("unpositioned-first", pk+".iterator."+m, p.Pos(fnPos(f)), "no longer forwards to the native iterator")
+				continue
+			}
+			ok, miss := everyDisjunctHas(p.mustHoldAt(native.Instr), []string{"$.positioned"})
+			first := findSite(f, "First")
+			c.check(ok && first != nil, "unpositioned-first", pk+".iterator."+m, p.Pos(native.Pos()), "native "+m+" only after the iterator was positioned; First() before", "the wrapper forwards "+m+"() to the native iterator although it was never positioned: backends disagree (Pebble's Prev on a fresh iterator goes to the last key, the contract and the memory backend go to the first): "+miss)
+		}
+	}
+	for _, m := range []string{"Put", "Delete"} {
+		f := p.Func("db/memory", "batch", m)
+		if f == nil {
+			c.und("batch-records-unconditionally", "memory.batch."+m, "", "anchor not found")
+			continue
+		}
+		n++
+		bad := ""
+		for _, s := range sitesOf(f) {
+			nm := ""
+			if s.Callee != nil {
+				nm = s.Callee.Name()
+			} else if s.Method != nil {
+				nm = s.Method.Name()
+			}
+			switch nm {
+			case "Has", "Get", "NewIterator", "get", "has":
+				bad = nm
+			}
+		}
+		c.check(bad == "", "batch-records-unconditionally", "memory.batch."+m, p.Pos(fnPos(f)), "recorded without reading current contents", "the batch decides at recording time, from the current contents ("+bad+"), whether to record the operation: a delete of a key that another writer creates before the batch commits is lost, unlike Pebble's tombstone")
+	}
+	if n < 6 {
+		c.und("unpositioned-first", "db iterators", "", fmt.Sprintf("only %d anchors found", n))
+	}
 }
